@@ -19,9 +19,10 @@ import ast
 from typing import Callable, Dict, List, Optional, Set
 
 from ..astfields import all_fresh, check_fresh, syntactic_problems
-from ..model import Repo, load_repo
+from ..model import Repo, dotted, load_repo
 from ..opsummary import OpSummary, all_summaries, kept_values, name_binding, reach, roots_of
 from ..report import AnalysisError, Report
+from ..util import src
 from ..vm import PathSummary
 from ..vmvals import AttrOf, Const, Fresh, Item, Mutation, Seq, SliceV, State, Unknown, Val
 
@@ -307,6 +308,34 @@ def check_ast_fields(repo: Repo, rep: Report, sums: List[OpSummary], rule: str =
         raise AnalysisError(f"only {count} ast.* constructor calls found (78 on the pinned tree)")
 
 
+def check_constant_ctor(repo: Repo, rep: Report, rule: str = "C05.dataflow"):
+    """`make_constant` is the one constructor every constant-pushing handler uses; the interpreter models it as
+    `ast.Constant` (a fresh node per call).  That model is only right while the name IS ast.Constant (or a plain wrapper):
+    a memoising wrapper hands the same node out for values that compare equal but are different constants (0.0 / -0.0,
+    True / 1 / 1.0) and shares nodes between decompilations."""
+    m = repo.module("fickling.fickle")
+    defs = m.assigns.get("make_constant", [])
+    fn = m.functions.get("make_constant")
+    where = "fickling/fickle.py"
+    if fn is not None and not defs:
+        deco = [dotted(d) or (dotted(d.func) if isinstance(d, ast.Call) else "") or "" for d in fn.node.decorator_list]
+        if any(x.split(".")[-1] in ("lru_cache", "cache") for x in deco):
+            rep.bad(rule, "fickling.fickle.make_constant", "memoised-constant-constructor", f"make_constant is memoised (@{deco[0]}): equal-but-different constants (0.0 and -0.0; True, 1 and 1.0) get one shared node, so the decompiled program builds a different value", where, fn.line)
+        else:
+            rep.ok(rule, "fickling.fickle.make_constant", "a plain function (no memoisation)", f"{where}:{fn.line}")
+        return
+    if not defs:
+        raise AnalysisError("fickling.fickle.make_constant: definition not found (the interpreter models it as ast.Constant)")
+    for v in defs:
+        q = repo.resolve_expr(m, v) or ""
+        if q == "ast.Constant":
+            rep.ok(rule, "fickling.fickle.make_constant", "is ast.Constant itself: a fresh node per call", f"{where}:{v.lineno}")
+        elif isinstance(v, ast.Call) and any((dotted(x) or "").split(".")[-1] in ("lru_cache", "cache", "cached") for x in ast.walk(v) if isinstance(x, (ast.Name, ast.Attribute))):
+            rep.bad(rule, "fickling.fickle.make_constant", "memoised-constant-constructor", f"`make_constant = {src(v)}` memoises the node constructor: the cache key treats equal-but-different constants (0.0 and -0.0; True, 1 and 1.0) as one, so the second such value is decompiled as the first, and nodes are shared between decompilations in one process", where, v.lineno)
+        else:
+            raise AnalysisError(f"fickling.fickle.make_constant = {src(v)}: not ast.Constant; the interpreter's model of constant construction does not apply")
+
+
 def run(rep: Report, tier: str):
     repo = load_repo()
     rep.explanation = (
@@ -322,6 +351,7 @@ def run(rep: Report, tier: str):
     rep.assume("every standard pickler memoises a container right after creating it and before filling it (why container identity matters)")
     sums = all_summaries(repo)
     rep.units = {"opcode_classes": len(sums), "paths": sum(len(s.paths) for s in sums)}
+    check_constant_ctor(repo, rep)
     check_dataflow(rep, sums)
     check_body_edits(rep, sums)
     check_in_place(rep, sums)
